@@ -100,7 +100,7 @@ class Terms:
             return ('undef', b.name(l))
         # the return place of an inlined helper is assigned once per way out of the helper: keep all of them, so that
         # "the value comes from a seek / a digest / a call of X" is still visible behind the helper's `?` paths
-        if l in self.frame_rets(b) and len(ds) <= 6 and d < MAXD - 8:
+        if l in self.frame_rets(b) and len(ds) <= 14 and d < MAXD - 8:
             alts = []
             for dd in ds:
                 if dd[0] == 'assign' and not dd[1]['pl']['p']:
